@@ -21,6 +21,7 @@ Inductive fk :=
   | FShimCoro                      (* greenback_shim: the coroutine the task runs *)
   | FShim | FTramp | FSend         (* _greenback_shim, trampoline, outcome.Value.send *)
   | FSendE                         (* outcome.Error.send: the coroutine below was last resumed by throw() *)
+  | FAdapt | FDunder               (* greenback's adapt_awaitable coroutine, the awaitable's __await__ generator *)
   | FTarget                        (* the task's async function *)
   | FA (k : nat) | FS (k : nat)    (* async / sync user function of alternation level k *)
   | FAwait (k : nat)               (* greenback.await_ of level k *)
@@ -33,7 +34,10 @@ Inductive obj := OTask | OChild | OOrigCoro | OCoro (k : nat).
 (* sc_err = Some m: the coroutine of level m was last resumed with an exception (asyncio delivers
    cancellation / timeouts by coro.throw()), handled it and went on; sc_aio: hosted by asyncio
    (the parked leaf ends in Event.wait; under trio in wait_task_rescheduled) *)
-Record scenario := { sc_inside : bool; sc_n : nat; sc_j : nat; sc_err : option nat; sc_aio : bool }.
+(* sc_awt: every await_ is given a non-coroutine awaitable (an object whose __await__ is a
+   generator that delegates to the coroutine); greenback wraps it in adapt_awaitable() *)
+Record scenario := { sc_inside : bool; sc_n : nat; sc_j : nat; sc_err : option nat; sc_aio : bool;
+                     sc_awt : bool }.
 
 Inductive hres := HNone | HObj (o : obj) | HRaise.
 
@@ -84,15 +88,18 @@ Definition seg (k : nat) : list fk := [FA k; FS k; FAwait k].
 Definition drv (err : option nat) (m : nat) : fk :=
   if option_eqb Nat.eqb err (Some m) then FSendE else FSend.
 
+(* what sits between an await_'s send and the awaited coroutine's frame *)
+Definition wrapl (awt : bool) : list fk := if awt then [FAdapt; FDunder] else [].
+
 (* levels n .. 1, each followed by the send that drives the next coroutine *)
-Fixpoint up (err : option nat) (n : nat) : list fk :=
-  match n with 0 => [] | S m => seg (S m) ++ drv err m :: up err m end.
+Fixpoint up (err : option nat) (awt : bool) (n : nat) : list fk :=
+  match n with 0 => [] | S m => seg (S m) ++ drv err m :: wrapl awt ++ up err awt m end.
 
 (* the same, the innermost await_ parked in greenlet.switch (a C function: no frame) *)
-Fixpoint out (err : option nat) (n : nat) : list fk :=
+Fixpoint out (err : option nat) (awt : bool) (n : nat) : list fk :=
   match n with
   | 0 => []
-  | S m => match m with 0 => seg 1 | S _ => seg (S m) ++ drv err m :: out err m end
+  | S m => match m with 0 => seg 1 | S _ => seg (S m) ++ drv err m :: wrapl awt ++ out err awt m end
   end.
 
 Definition park (sc : scenario) : list fk := if sc_aio sc then [FA 0; FWait] else [FA 0; FWait; FWTR].
@@ -101,7 +108,7 @@ Definition unwrap (sc : scenario) (o : obj) : list fk :=
   let err := sc_err sc in
   if sc_inside sc then
     match o with
-    | OTask => [FShimCoro; FShim; FTramp; drv err (sc_n sc); FTarget] ++ up err (sc_n sc) ++ [FA 0; FLeaf]
+    | OTask => [FShimCoro; FShim; FTramp; drv err (sc_n sc); FTarget] ++ up err (sc_awt sc) (sc_n sc) ++ [FA 0; FLeaf]
                ++ repeat FNested (S (sc_j sc)) ++ [FProbe]
     | _ => []                                        (* never asked for in the recorded runs *)
     end
@@ -110,10 +117,10 @@ Definition unwrap (sc : scenario) (o : obj) : list fk :=
     | OTask => [FShimCoro; FShim]
     | OChild => FTramp :: match sc_n sc with
                           | 0 => []
-                          | S _ => drv err (sc_n sc) :: FTarget :: out err (sc_n sc)
+                          | S _ => drv err (sc_n sc) :: FTarget :: out err (sc_awt sc) (sc_n sc)
                           end
     | OOrigCoro => FTarget :: park sc
-    | OCoro 0 => park sc
+    | OCoro 0 => wrapl (sc_awt sc) ++ park sc        (* the coro of the innermost await_: adapt_awaitable(aw) *)
     | OCoro _ => []
     end.
 
@@ -150,7 +157,7 @@ Definition gb_extract (sc : scenario) : gres := run 8 sc OTask [].
 Definition fk_eqb (a b : fk) : bool :=
   match a, b with
   | FShimCoro, FShimCoro | FShim, FShim | FTramp, FTramp | FSend, FSend | FSendE, FSendE | FTarget, FTarget
-  | FLeaf, FLeaf | FNested, FNested | FProbe, FProbe | FWait, FWait | FWTR, FWTR | FSwitch, FSwitch => true
+  | FAdapt, FAdapt | FDunder, FDunder | FLeaf, FLeaf | FNested, FNested | FProbe, FProbe | FWait, FWait | FWTR, FWTR | FSwitch, FSwitch => true
   | FA x, FA y | FS x, FS y | FAwait x, FAwait y => x =? y
   | _, _ => false
   end.
